@@ -318,7 +318,12 @@ async fn scenario(case: &Value) -> Value {
                    "r": f.get("run_session_id").cloned().unwrap_or(Value::Null),
                    "m": if f["type"] == "continuity_message_appended" { f["id"].clone() } else { f.get("message_id").cloned().unwrap_or(Value::Null) },
                    "j": f.get("job_id").cloned().unwrap_or(Value::Null),
-                   "st": if f["type"] == "tool_task_status" { f.get("status").cloned().unwrap_or(Value::Null) } else { Value::Null }})
+                   "st": if f["type"] == "tool_task_status" { f.get("status").cloned().unwrap_or(Value::Null) } else { Value::Null },
+                   "to_seq": f.get("to_seq").cloned().unwrap_or(Value::Null), "to_message_id": f.get("to_message_id").cloned().unwrap_or(Value::Null),
+                   "parent_thread_id": f.get("parent_thread_id").or_else(|| f.get("from_thread_id")).cloned().unwrap_or(Value::Null),
+                   "parent_seq": f.get("parent_seq").or_else(|| if f["type"] == "continuity_handoff_created" { f.get("from_seq") } else { None }).cloned().unwrap_or(Value::Null),
+                   "parent_message_id": f.get("parent_message_id").or_else(|| if f["type"] == "continuity_handoff_created" { f.get("from_message_id") } else { None }).cloned().unwrap_or(Value::Null),
+                   "tool_id": if f["type"] == "continuity_tool_side_effects" { f.get("tool_id").cloned().unwrap_or(Value::Null) } else { Value::Null }})
         })
         .collect();
     let (ack_checked, ack_missing) = crate::hub::hub().take_ackdisk();
